@@ -241,3 +241,13 @@ Proof.
         rewrite E in Hm. simpl in Hm. inv Hm. simpl. auto.
       * apply Base. simpl in *. now rewrite Sd.
 Qed.
+
+(* ---------- mkdir -p under a lost creation race (needs: MkDirAll's re-check of Exists after the back end's error) ---------- *)
+Lemma m_mkdir_raced_refines fa t p tr r t' :
+  mkdir_ok fa = true -> wf t -> r_mkdir t (P p tr) = Out r t' -> m_mkdir_raced fa t p = (r, t').
+Proof.
+  unfold mkdir_ok. intros OK W. unfold r_mkdir, m_mkdir_raced, b_mkdirall. rewrite OK.
+  destruct (through_file t p || is_file t p) eqn:C; [discriminate|]. intros H; inversion H; subst r t'; clear H.
+  destruct (m_exists_pair t p) as [h ->]. simpl. destruct (exists_ t p) eqn:E; auto.
+  f_equal. symmetry. now apply mkdirp_exists_id.
+Qed.
